@@ -11,7 +11,9 @@ CHECKS = {
             '(shapes exact, values 1e-11 relative) over all 106 wavelets x 5 modes x hostile sizes; impulse '
             'batches give the whole operator per cell and the ATen-level taint monitor certifies the executed '
             'op stream linear with input-independent control flow, so agreement on the basis extends to all '
-            'inputs of that cell. Sizes and J are bounded: exploration, not proof.', '5/C01'),
+            'inputs of that cell. Also driven: the 4-tuple form with distinct column/row wavelets, the short mode spelling, '
+            'channel counts up to 5, signals longer than 2^14 samples, and use / in-place filter reload / use histories. '
+            'Sizes and J are bounded: exploration, not proof.', '5/C01 and 10.5'),
     'C02': ('round-trip runtime monitor (inverse fed the observed forward output) on impulse batches and dense inputs',
             'inverse(forward(x)) is compared with the recorded x on the original extent for all wavelets, '
             'modes, J and hostile sizes; tolerance tied to PyWavelets own round-trip error for '
@@ -43,7 +45,9 @@ CHECKS = {
             'shared with the backward); the full Jacobian from one batched backward execution at two points and every '
             '2^(J+1)-1 requires-grad pattern of the inverse are compared with it; every AFB*/SFB*.backward invocation is '
             'compared with the native VJP of the Function forward body. Three mechanisms are open known findings with '
-            'localisation checks that still report other backward defects in those modes.', '5/C05'),
+            'localisation checks that still report other backward defects in those modes. Also driven: cotangents of '
+            'magnitude 1e-10, a second pull-back through one recorded graph, odd-length custom filter banks, reload '
+            'histories, and (thorough) the repository tests under the Function-level monitor.', '5/C05 and 10.5'),
     'C06': ('adjoint runtime monitor for the DTCWT: Jacobian from one batched backward vs operator from impulse executions over layouts/masks/subsets; Function-level adjoint-identity monitor',
             'As C05 for DTCWTForward/DTCWTInverse over the 20 filter pairs, all 120 (o_dim,ri_dim) layouts, skip and '
             'include_scale masks (cotangents fed into every returned lowpass) and every requires-grad pattern; every '
@@ -53,12 +57,15 @@ CHECKS = {
             'For DWT 1-D/2-D forward+inverse, SWT and DTCWT forward+inverse: dynamic taint tracking certifies every '
             'operator consuming input data linear and the control flow input-independent (a refuted certificate is a '
             'violation); superposition with random scalars, bit-zero T(0), slice-by-slice equality for N in {1,2,3,5}, '
-            'C in {1,2,3,4,7} and a leak test with re-randomised neighbours.', '5/C07'),
+            'C in {1,2,3,4,7}, a leak test with re-randomised neighbours, homogeneity with the scalars 1e-12 and 1e12, '
+            'block superposition with exactly-zero arguments and batches whose slices differ by 1e18 in scale.', '5/C07 and 10.5'),
     'C15': ('history recording at the client boundary checked offline against a stateless reference table built in fresh processes; attached M-ARG/M-INV/M-CACHE/M-DISP.write monitors; 1..16 threads with sys.monitoring yield and fault injection',
             'Every call of seeded multi-threaded histories over a near-colliding pool of configurations (threads share '
             'module instances; pre-emption injected at library source lines; exceptions injected in dedicated '
             'histories) must return bit-for-bit what the same call returns in its own fresh process; all arguments, '
-            'buffers and cached tables must be unchanged across every call and no mutating ATen op may write into them.', '5/C15'),
+            'buffers, plain module attributes and cached tables must be unchanged across every call and no mutating ATen op '
+            'may write into them. One module instance serves several input shapes; hot histories and barrier-started '
+            'contention bursts put threads into the same instance with equal shapes and different data.', '5/C15 and 10.5'),
     'C16': ('dtype postcondition + ATen precision monitor on every call, f32-vs-f64 differential with gain-scaled bound, converted-module and strided-view metamorphic monitors',
             'All transforms incl. inverses, SWT and scattering: outputs keep the input dtype, no ATen op inside a call '
             'produces a narrower float, float32 results within 64*eps32*(gain*max|x|+bias) of float64, .float()/.double() '
